@@ -79,6 +79,7 @@ type Step struct {
 	Arg    string `json:"arg,omitempty"`   // query: argument
 	Start  string `json:"start,omitempty"` // dump: zero|current|stale|bogus  (CAS of Key in Coll)
 	Plus   uint64 `json:"plus,omitempty"`  // dump: added to the resolved start CAS
+	KeysOnly bool `json:"keysonly,omitempty"` // dump: a KeysOnly feed
 	Nested *KOp   `json:"nested,omitempty"` // kv (Update, WriteUpdateWithXattrs, WriteSubDoc, SubdocInsert): another call on the same key,
 	// made through another handle inside the window between the call's read and its compare-and-swap write
 }
@@ -402,10 +403,14 @@ func (k *kvRun) collectLive(expectPosted int64) []any {
 func dumpFeed(c *rosmar.Collection) ([]sgbucket.FeedEvent, error) { return dumpFeedFrom(c, 0) }
 
 func dumpFeedFrom(c *rosmar.Collection, start uint64) ([]sgbucket.FeedEvent, error) {
+	return dumpFeedArgs(c, start, false)
+}
+
+func dumpFeedArgs(c *rosmar.Collection, start uint64, keysOnly bool) ([]sgbucket.FeedEvent, error) {
 	var mu sync.Mutex
 	var evs []sgbucket.FeedEvent
 	done := make(chan struct{})
-	args := sgbucket.FeedArguments{ID: "dump", Backfill: start, Dump: true, DoneChan: done}
+	args := sgbucket.FeedArguments{ID: "dump", Backfill: start, Dump: true, DoneChan: done, KeysOnly: keysOnly}
 	err := c.StartDCPFeed(ctxBg, args, func(ev sgbucket.FeedEvent) bool {
 		mu.Lock()
 		evs = append(evs, ev)
@@ -1158,6 +1163,11 @@ func execKvInner(in kvInput, scratch string, prog *kvProgress) (Case, error) {
 	}
 
 	var steps, obs []any
+	var pendingLive []any
+	prevSnap, err := k.snapshot()
+	if err != nil {
+		return c, err
+	}
 	for i, st := range in.Ops {
 		if st.Handle >= nh {
 			st.Handle = 0
@@ -1209,22 +1219,31 @@ func execKvInner(in kvInput, scratch string, prog *kvProgress) (Case, error) {
 			if err != nil {
 				return c, err
 			}
+			opT = C("SKv", S(st.Coll), S(st.Key), kt)
 			if win != nil && win.fired {
 				if win.err != nil {
 					return c, win.err
 				}
-				sc := P(C("mkSctx", N(st.Clock), N(uint64(now0)), N(uint64(in.MaxDoc))), win.opT)
-				steps = append(steps, sc)
-				obs = append(obs, C("mkOstep", win.respT, L(win.live...), L(), win.snap))
-				// the transactions the enclosing call began; the model subtracts what the call accounts for itself
-				if win.begins > 0 {
-					steps = append(steps, P(C("mkSctx", N(st.Clock), N(uint64(now0)), N(uint64(in.MaxDoc))), C("SDraw", S(st.Coll), S(st.Key), kt, N(uint64(win.begins)))))
+				sctx := C("mkSctx", N(st.Clock), N(uint64(now0)), N(uint64(in.MaxDoc)))
+				if win.begins == 0 {
+					// the enclosing call never began a transaction: whatever it answered, it answered from what it
+					// read before the nested call and it changed nothing - it takes effect first
+					if prevSnap == nil {
+						return c, fmt.Errorf("no snapshot before step %d", i)
+					}
+					steps = append(steps, P(sctx, opT))
+					obs = append(obs, C("mkOstep", respT, L(), L(), prevSnap))
+					opT, respT = win.opT, win.respT
+					pendingLive = win.live
+				} else {
+					steps = append(steps, P(sctx, win.opT))
+					obs = append(obs, C("mkOstep", win.respT, L(win.live...), L(), win.snap))
+					// the transactions the enclosing call began; the model subtracts what the call accounts for itself
+					steps = append(steps, P(sctx, C("SDraw", S(st.Coll), S(st.Key), kt, N(uint64(win.begins)))))
 					obs = append(obs, C("mkOstep", C("ROk"), L(), L(), win.snap))
 				}
-				win.attempts = win.begins
-				k.cells[fmt.Sprintf("window|%s|%s|txns=%d", st.Op.Kind, st.Nested.Kind, win.attempts)] = true
+				k.cells[fmt.Sprintf("window|%s|%s|txns=%d", st.Op.Kind, st.Nested.Kind, win.begins)] = true
 			}
-			opT = C("SKv", S(st.Coll), S(st.Key), kt)
 			pre := k.class[st.Coll+"/"+st.Key]
 			if pre == "" {
 				pre = "absent"
@@ -1285,11 +1304,14 @@ func execKvInner(in kvInput, scratch string, prog *kvProgress) (Case, error) {
 				start = 2 // 1 is the FeedResume marker, not a CAS
 			}
 			opT = C("SDump", S(st.Coll), N(start))
+			if st.KeysOnly {
+				opT = C("SDumpKeys", S(st.Coll), N(start))
+			}
 			col, err := k.coll(0, st.Coll)
 			if err != nil {
 				return c, err
 			}
-			evs, err := dumpFeedFrom(col, start)
+			evs, err := dumpFeedArgs(col, start, st.KeysOnly)
 			if err != nil {
 				return c, err
 			}
@@ -1478,10 +1500,13 @@ func execKvInner(in kvInput, scratch string, prog *kvProgress) (Case, error) {
 			break
 		}
 		live := k.collectLive(atomic.LoadInt64(&k.posted))
+		live = append(pendingLive, live...)
+		pendingLive = nil
 		snap, err := k.snapshot()
 		if err != nil {
 			return c, fmt.Errorf("snapshot after step %d: %w", i, err)
 		}
+		prevSnap = snap
 		steps = append(steps, P(C("mkSctx", N(st.Clock), N(uint64(now0)), N(uint64(in.MaxDoc))), opT))
 		obs = append(obs, C("mkOstep", respT, L(live...), L(dumpEvs...), snap))
 		prog.mu.Lock()
